@@ -101,6 +101,18 @@ def builder_form(stmts):
                     out.append(ast.fix_missing_locations(new))
                     i += 2
                     continue
+        # x = 0 directly followed by `for v in XS: x += E` (nothing else in the loop; E and XS do not mention x) is x = sum(E for v in XS)
+        if isinstance(s, ast.Assign) and len(s.targets) == 1 and isinstance(s.targets[0], ast.Name) and isinstance(s.value, ast.Constant) and s.value.value == 0 \
+                and type(s.value.value) is int and isinstance(nxt, ast.For) and not nxt.orelse and len(nxt.body) == 1 and isinstance(nxt.body[0], ast.AugAssign) \
+                and isinstance(nxt.body[0].op, ast.Add) and isinstance(nxt.body[0].target, ast.Name) and nxt.body[0].target.id == s.targets[0].id:
+            x = s.targets[0].id
+            e = nxt.body[0].value
+            if not any(isinstance(n, ast.Name) and n.id == x for part in (e, nxt.iter, nxt.target) for n in ast.walk(part)):
+                gen = ast.GeneratorExp(elt=e, generators=[ast.comprehension(target=nxt.target, iter=nxt.iter, ifs=[], is_async=0)])
+                call = ast.Call(func=ast.Name(id="sum", ctx=ast.Load()), args=[gen], keywords=[])
+                out.append(ast.fix_missing_locations(ast.copy_location(ast.Assign(targets=[s.targets[0]], value=ast.copy_location(call, nxt)), s)))
+                i += 2
+                continue
         out.append(s)
         i += 1
     return out
@@ -219,6 +231,25 @@ class Canon(ast.NodeTransformer):
             node.comparators = [c0.func.value]
         op = type(node.ops[0])
         l, r = node.left, node.comparators[0]
+        # max(X) > c  is  any(x > c for x in X);  min(X) < c  is  any(x < c for x in X)   (X non-empty, else max / min raise)
+        def _ext(e):
+            if isinstance(e, ast.Call) and isinstance(e.func, ast.Name) and e.func.id in ("max", "min") and len(e.args) == 1 and not e.keywords \
+                    and not isinstance(e.args[0], (ast.Starred, ast.GeneratorExp, ast.ListComp)):
+                return e.func.id, e.args[0]
+            return None
+        for side, other, flip in ((l, r, False), (r, l, True)):
+            ex = _ext(side)
+            if ex is None or _ext(other) is not None:
+                continue
+            o = op
+            if flip:   # c OP ext(X)  ==  ext(X) OP' c
+                o = {ast.Lt: ast.Gt, ast.Gt: ast.Lt, ast.LtE: ast.GtE, ast.GtE: ast.LtE}.get(op)
+            if (ex[0] == "max" and o in (ast.Gt, ast.GtE)) or (ex[0] == "min" and o in (ast.Lt, ast.LtE)):
+                import copy
+                v = ast.Name(id="_m", ctx=ast.Load())
+                inner = self.visit_Compare(ast.copy_location(ast.Compare(left=v, ops=[o()], comparators=[copy.deepcopy(other)]), node), descend=False)
+                gen = ast.GeneratorExp(elt=inner, generators=[ast.comprehension(target=ast.Name(id="_m", ctx=ast.Store()), iter=ex[1], ifs=[], is_async=0)])
+                return ast.fix_missing_locations(ast.copy_location(ast.Call(func=ast.Name(id="any", ctx=ast.Load()), args=[gen], keywords=[]), node))
         # x in ("a", "b")  is  x == "a" or x == "b"   (literal of constants, x a plain name / attribute)
         if op in (ast.In, ast.NotIn) and isinstance(r, (ast.Tuple, ast.List, ast.Set)) and 1 <= len(r.elts) <= 5 and all(isinstance(x, ast.Constant) for x in r.elts) \
                 and isinstance(l, (ast.Name, ast.Attribute)):
@@ -402,6 +433,24 @@ class Canon(ast.NodeTransformer):
             a = ast.copy_location(ast.Assign(targets=[copy.deepcopy(node.targets[0])], value=ie.body), node)
             b = ast.copy_location(ast.Assign(targets=[copy.deepcopy(node.targets[0])], value=ie.orelse), node)
             return self.visit_If(ast.copy_location(ast.If(test=ie.test, body=[a], orelse=[b]), node), descend=False)
+        return node
+
+    def visit_FunctionDef(self, node):
+        # at the top level of a function `if c: return` followed by REST (the function then ends) is `if not c: REST`
+        node = self.generic_visit(node)
+        body = node.body
+        for i in range(len(body) - 2, -1, -1):
+            s = body[i]
+            if isinstance(s, ast.If) and not s.orelse and len(s.body) == 1 and isinstance(s.body[0], ast.Return) \
+                    and (s.body[0].value is None or (isinstance(s.body[0].value, ast.Constant) and s.body[0].value.value is None)):
+                rest = body[i + 1:]
+                if not rest:
+                    continue
+                neg = self.visit_UnaryOp(ast.copy_location(ast.UnaryOp(op=ast.Not(), operand=s.test), s.test), descend=False)
+                new_if = ast.copy_location(ast.If(test=neg, body=rest, orelse=[]), s)
+                new_if = self.visit_If(new_if, descend=False)
+                body[i:] = new_if if isinstance(new_if, list) else [new_if]
+        node.body = body
         return node
 
     def visit_Expr(self, node):
